@@ -242,3 +242,156 @@ Section RmAll.
         intros c r Hcr. rewrite (HU (c :: r) Hcr). apply (Fi_below_leaf idx h cs i c r Hinv Hcs Hcr HFi Hleaf).
   Qed.
 End RmAll.
+
+(* ---- the invariant after RemoveAll ------------------------------------------------------------------------ *)
+Lemma kcount_sub_val (ia idx : list (str * nat)) i :
+  NoDup (map fst ia) -> NoDup (map fst idx) ->
+  (forall k, ikey ia k = Some i -> ikey idx k = Some i) -> kcount i ia <= kcount i idx.
+Proof.
+  revert idx. induction ia as [|[k v] ia IH]; intros idx Hna Hni Hsub; [unfold kcount, kcount_p; cbn; lia|].
+  inversion Hna as [|? ? Hk Hna']; subst.
+  assert (Hc : kcount i ((k, v) :: ia) = (if Nat.eqb v i then 1 else 0) + kcount i ia).
+  { unfold kcount, kcount_p. cbn [filter snd]. destruct (Nat.eqb v i); reflexivity. }
+  rewrite Hc.
+  assert (Htail : forall k', ikey ia k' = Some i -> k' <> k /\ ikey ((k, v) :: ia) k' = Some i).
+  { intros k' Hk'. assert (Hne : k' <> k).
+    { intros ->. apply Hk. apply in_map_iff. exists (k, i). split; [reflexivity|]. apply al_in. exact Hk'. }
+    split; [exact Hne|]. unfold ikey. cbn [alookup]. destruct (str_eqb_spec k' k); [congruence|exact Hk']. }
+  destruct (Nat.eqb_spec v i) as [->|Hvi].
+  - assert (Hkv : ikey idx k = Some i) by (apply Hsub; unfold ikey; cbn [alookup]; rewrite str_eqb_refl; reflexivity).
+    pose proof (kcount_aremove nat (fun x => Nat.eqb x i) k i idx Hni Hkv) as E. cbv beta in E. rewrite Nat.eqb_refl in E.
+    assert (IH' : kcount i ia <= kcount i (aremove str_eqb k idx)).
+    { apply IH; [exact Hna'|apply nodup_aremove; exact Hni|]. intros k' Hk'. destruct (Htail k' Hk') as [Hne Hk2].
+      unfold ikey. rewrite al_aremove_neq by exact Hne. apply Hsub. exact Hk2. }
+    unfold kcount in *. lia.
+  - assert (IH' : kcount i ia <= kcount i idx).
+    { apply IH; [exact Hna'|exact Hni|]. intros k' Hk'. destruct (Htail k' Hk') as [_ Hk2]. apply Hsub. exact Hk2. }
+    lia.
+Qed.
+
+Lemma iter_rm_in_ch k n c j : In (c, j) (on_ch (iter_rm k n)) -> In (c, j) (on_ch n).
+Proof. rewrite iter_rm_ch. destruct k; [auto|intros []]. Qed.
+
+Lemma iter_rm_ch_nodup k n : NoDup (map fst (on_ch n)) -> NoDup (map fst (on_ch (iter_rm k n))).
+Proof. rewrite iter_rm_ch. destruct k; [auto|intros _; constructor]. Qed.
+
+Lemma hinv_rm_all idx h ps c p pn t :
+  hinv idx h -> gcs ps -> good_comp c ->
+  Fi idx ps = Some p -> oget h p = Some pn -> Fi idx (ps ++ [c]) = Some t ->
+  hinv (fst (o_rm_all (S (length h)) Linux (idx, h) (rpath (ps ++ [c])) t))
+       (o_del_child (snd (o_rm_all (S (length h)) Linux (idx, h) (rpath (ps ++ [c])) t)) p c).
+Proof.
+  intros Hinv Hps Hc HFp Hp HFt.
+  set (tgt := ps ++ [c]) in *.
+  assert (Hgt : gcs tgt) by (apply gcs_snoc; assumption).
+  assert (Htne : tgt <> []) by (unfold tgt; intros E; apply app_eq_nil in E; destruct E; discriminate).
+  destruct (parent_is_dir idx h Hinv ps c t Hps Hc HFt) as (p' & pn' & HFp' & Hp' & Hpd & Hpc).
+  rewrite HFp in HFp'. inversion HFp'; subst p'. rewrite Hp in Hp'. inversion Hp'; subst pn'. clear HFp' Hp'.
+  assert (HU0 : U idx tgt idx) by (intros rest _; reflexivity).
+  assert (Hnd0 : NoDup [t]) by (constructor; [intros []|constructor]).
+  assert (Hanc0 : anc_ok idx h tgt []) by (intros a []).
+  assert (Hfu0 : length h <= S (length h) + length (@nil nat)) by (cbn [length]; lia).
+  destruct (rm_all_spec idx h Hinv (S (length h)) idx h tgt t [] (R_init idx h Hinv) Hgt Htne HFt HU0 Hnd0 Hanc0 Hfu0)
+    as (HR & HF & Hsl).
+  destruct (o_rm_all (S (length h)) Linux (idx, h) (rpath tgt) t) as [idx' h'] eqn:Erm. cbn [fst snd] in *.
+  assert (Hle : forall j, kcount j idx' <= kcount j idx)
+    by (intros j; apply kcount_sub; [apply (r_nodup _ _ _ _ HR)|apply (hi_nodup _ _ Hinv)|apply (r_sub _ _ _ _ HR)]).
+  (* a directory whose path is kept keeps all its keys *)
+  assert (Hdir_kept : forall q cs, is_dir_at h q -> gcs cs -> Fi idx cs = Some q -> Fi idx' cs = Some q ->
+            kcount q idx - kcount q idx' = 0).
+  { intros q cs Hqd Hcs Hq Hq'.
+    assert (H : kcount q idx <= kcount q idx'); [|lia].
+    apply kcount_sub_val; [apply (hi_nodup _ _ Hinv)|apply (r_nodup _ _ _ _ HR)|].
+    intros k Hk. destruct (hi_keys _ _ Hinv k q Hk) as [[-> ->]|(cs0 & Hcs0 & ->)].
+    - rewrite Hsl. exact Hk.
+    - rewrite (dir_key_unique idx h Hinv cs0 cs q Hcs0 Hcs Hk Hq Hqd). exact Hq'. }
+  assert (Hp' : oget h' p = Some (iter_rm (kcount p idx - kcount p idx') pn)) by (apply (r_node _ _ _ _ HR); exact Hp).
+  assert (Hget : forall i x, oget (o_del_child h' p c) i = Some x ->
+            exists n, oget h i = Some n
+              /\ on_nlink x = on_nlink (iter_rm (kcount i idx - kcount i idx') n) /\ on_dir x = on_dir n
+              /\ (forall c' j, In (c', j) (on_ch x) -> In (c', j) (on_ch n))
+              /\ (on_dir n = false -> on_ch x = [])
+              /\ NoDup (map fst (on_ch x))).
+  { intros i x Hx. unfold o_del_child in Hx. rewrite Hp' in Hx. rewrite (oget_oupd _ _ _ _ _ Hp') in Hx.
+    destruct (Nat.eqb_spec p i) as [<-|Hpi].
+    - inversion Hx; subst x. exists pn. cbn [on_with_ch on_nlink on_ch]. split; [exact Hp|]. split; [reflexivity|]. split.
+      { unfold on_dir. cbn [on_with_ch on_meta]. apply (iter_rm_dir _ pn). }
+      split; [intros c' j Hin; apply in_aremove_in in Hin; apply iter_rm_in_ch in Hin; exact Hin|].
+      split; [congruence|]. apply nodup_aremove. apply iter_rm_ch_nodup. apply (hi_chnodup _ _ Hinv _ _ Hp).
+    - destruct (oget_lt_some h i) as (n & Hn); [rewrite <- (r_len _ _ _ _ HR); eapply oget_some_lt; exact Hx|].
+      rewrite (r_node _ _ _ _ HR i n Hn) in Hx. inversion Hx; subst x.
+      exists n. split; [exact Hn|]. split; [reflexivity|]. split; [apply iter_rm_dir|].
+      split; [intros c' j; apply iter_rm_in_ch|]. split.
+      + intros Hd. rewrite iter_rm_ch. destruct (kcount i idx - kcount i idx'); [apply (hi_leaf _ _ Hinv _ _ Hn Hd)|reflexivity].
+      + apply iter_rm_ch_nodup. apply (hi_chnodup _ _ Hinv _ _ Hn). }
+  assert (Hfwd : forall i n, oget h i = Some n -> exists x, oget (o_del_child h' p c) i = Some x /\ on_dir x = on_dir n).
+  { intros i n Hn. destruct (oget_lt_some (o_del_child h' p c) i) as (x & Hx).
+    { unfold o_del_child. rewrite Hp', oupd_length, (r_len _ _ _ _ HR). eapply oget_some_lt. exact Hn. }
+    exists x. split; [exact Hx|]. destruct (Hget i x Hx) as (n' & Hn' & _ & Hd & _). congruence. }
+  assert (HCh : forall q c' nq, oget h q = Some nq ->
+            Ch (o_del_child h' p c) q c' =
+              if Nat.eqb p q && str_eqb c' c then None
+              else alookup str_eqb c' (on_ch (iter_rm (kcount q idx - kcount q idx') nq))).
+  { intros q c' nq Hq. rewrite (Ch_del_child _ _ _ _ Hp'). destruct (Nat.eqb p q && str_eqb c' c); [reflexivity|].
+    unfold Ch. rewrite (r_node _ _ _ _ HR q nq Hq). reflexivity. }
+  constructor.
+  - apply (r_nodup _ _ _ _ HR).
+  - intros k i Hk. apply (hi_keys _ _ Hinv k i). apply (r_sub _ _ _ _ HR). exact Hk.
+  - split.
+    + change (ikey idx' []) with (Fi idx' []). rewrite (HF [] (Forall_nil _)).
+      assert (Hs : strip tgt [] = None) by (apply strip_none; intros r E; destruct tgt; [congruence|discriminate]).
+      rewrite Hs. apply (hi_root _ _ Hinv).
+    + rewrite Hsl. apply (hi_root _ _ Hinv).
+  - destruct (hi_rootdir _ _ Hinv) as (r & Hr & Hrd). destruct (Hfwd 0 r Hr) as (x & Hx & Hd). exists x. split; [exact Hx|congruence].
+  - intros cs Hcs HFc. apply (hi_rootkey _ _ Hinv cs Hcs). apply (r_sub _ _ _ _ HR). exact HFc.
+  - intros k i Hk. destruct (hi_valid _ _ Hinv _ _ (r_sub _ _ _ _ HR _ _ Hk)) as (n & Hn). destruct (Hfwd i n Hn) as (x & Hx & _). eauto.
+  - intros cs c' i Hcs Hc'.
+    rewrite (HF (cs ++ [c']) (gcs_snoc _ _ Hcs Hc')).
+    destruct (strip tgt (cs ++ [c'])) as [r|] eqn:EA.
+    + split; [discriminate|]. intros (q & Hq & Hqc). exfalso. rewrite (HF cs Hcs) in Hq.
+      destruct (strip tgt cs) as [r2|] eqn:EB; [discriminate|].
+      apply strip_some in EA. destruct (snoc_eq_app _ _ _ _ EA) as [[-> Et]|(r' & -> & Ecs)].
+      * unfold tgt in Et. apply app_inj_tail in Et. destruct Et as [<- <-].
+        rewrite HFp in Hq. inversion Hq; subst q. rewrite (HCh p c pn Hp), Nat.eqb_refl, str_eqb_refl in Hqc. discriminate.
+      * apply (proj1 (strip_none tgt cs) EB r'). exact Ecs.
+    + assert (EB : strip tgt cs = None).
+      { apply strip_none. intros r E. apply (proj1 (strip_none tgt (cs ++ [c'])) EA (r ++ [c'])). rewrite E, <- app_assoc. reflexivity. }
+      rewrite (hi_edge _ _ Hinv cs c' i Hcs Hc').
+      assert (Hsame : forall q, Fi idx cs = Some q -> Ch (o_del_child h' p c) q c' = Ch h q c').
+      { intros q Hq. destruct (hi_valid _ _ Hinv _ _ Hq) as (nq & Hnq). rewrite (HCh q c' nq Hnq).
+        assert (Hq' : Fi idx' cs = Some q) by (rewrite (HF cs Hcs), EB; exact Hq).
+        assert (Hpc' : Nat.eqb p q && str_eqb c' c = false).
+        { destruct (Nat.eqb_spec p q) as [<-|_]; [|reflexivity]. destruct (str_eqb_spec c' c) as [->|_]; [|reflexivity].
+          exfalso. apply (proj1 (strip_none tgt (cs ++ [c])) EA []). rewrite app_nil_r. unfold tgt.
+          rewrite (dir_key_unique idx h Hinv cs ps p Hcs Hps Hq HFp); [reflexivity|]. exists pn. auto. }
+        rewrite Hpc'. unfold Ch. rewrite Hnq.
+        destruct (on_dir nq) eqn:Edq.
+        - rewrite (Hdir_kept q cs (ex_intro _ nq (conj Hnq Edq)) Hcs Hq Hq'). reflexivity.
+        - rewrite iter_rm_ch. rewrite (hi_leaf _ _ Hinv _ _ Hnq Edq). destruct (kcount q idx - kcount q idx'); reflexivity. }
+      split; intros (q & Hq & Hqc); exists q.
+      * split; [rewrite (HF cs Hcs), EB; exact Hq|]. rewrite (Hsame q Hq). exact Hqc.
+      * rewrite (HF cs Hcs), EB in Hq. split; [exact Hq|]. rewrite <- (Hsame q Hq). exact Hqc.
+  - intros i x Hx Hxd. destruct (Hget i x Hx) as (n & Hn & _ & Hd & _ & Hleaf & _). apply Hleaf. congruence.
+  - intros i x Hx Hi0. destruct (Hget i x Hx) as (n & Hn & Hl & _). rewrite Hl, iter_rm_nlink.
+    rewrite (hi_nlink _ _ Hinv _ _ Hn Hi0). pose proof (Hle i). lia.
+  - intros i x Hx Hxd. destruct (Hget i x Hx) as (n & Hn & Hl & Hd & _). rewrite Hl, iter_rm_nlink.
+    pose proof (hi_dirnlink _ _ Hinv _ _ Hn). rewrite Hd in Hxd. specialize (H Hxd). lia.
+  - intros i x c' j Hx Hin. destruct (Hget i x Hx) as (n & Hn & _ & _ & Hch & _). apply (hi_chgood _ _ Hinv _ _ _ _ Hn (Hch _ _ Hin)).
+  - intros i x Hx. destruct (Hget i x Hx) as (n & Hn & _ & _ & _ & _ & Hnd). exact Hnd.
+Qed.
+
+(* ---- RemoveAll, any target ---------------------------------------------------------------------------------------- *)
+Lemma step_remove_all s path : orefa_inv s -> orefa_inv (fst (o_remove_all s path)).
+Proof.
+  intros Hinv. unfold o_remove_all. destruct path as [|x path']; [exact Hinv|]. set (path := x :: path') in *.
+  destruct (oabs_shape s path Hinv) as (cs & Hcs & Eabs). rewrite Eabs, (inv_os _ Hinv).
+  destruct (abs_path_split cs Hcs) as [(-> & E1 & E2)|(ps & c & -> & Hps & Hc & E1 & E2)]; rewrite E2.
+  - destruct (ofind_root s (inv_h _ Hinv)) as (n & H1 & H2 & Hd). rewrite E1, H1, H2. rewrite Nat.eqb_refl. exact Hinv.
+  - rewrite E1. destruct (ofind s (rpath (ps ++ [c]))) as [[ci cn]|] eqn:Ec; [|exact Hinv].
+    destruct (ofind s (rpath ps)) as [[pi pn]|] eqn:Ep; [|exact Hinv].
+    destruct (Nat.eqb ci pi); [exact Hinv|].
+    apply ofind_some in Ec. destruct Ec as [Hci Hcn]. apply ofind_some in Ep. destruct Ep as [Hpi Hpn].
+    pose proof (hinv_rm_all (o_index s) (o_heap s) ps c pi pn ci (inv_h _ Hinv) Hps Hc Hpi Hpn Hci) as H.
+    destruct (o_rm_all (S (length (o_heap s))) Linux (o_index s, o_heap s) (rpath (ps ++ [c])) ci) as [idx1 h1].
+    cbn [fst snd] in *. apply inv_with; [exact Hinv|exact H].
+Qed.
